@@ -20,7 +20,7 @@ from types import MethodType
 
 from .constants import DefaultValue
 from .trait_base import Undefined, Uninitialized
-from .trait_errors import TraitError
+from .trait_errors import DelegationError, TraitError
 from .trait_notifiers import TraitChangeNotifyWrapper
 from .util.weakiddict import WeakIDKeyDict
 
@@ -386,7 +386,13 @@ class ListenerItem(ListenerBase):
                 name = name[:-1]
 
             # Else, no wildcard matching, just get the specified trait:
-            trait = new.base_trait(name)
+            try:
+                trait = new.base_trait(name)
+            except DelegationError:
+                # The trait is delegated and its delegation chain cannot be
+                # followed at the moment (one of its links is None): listen to
+                # the delegated trait itself.
+                trait = new.trait(name)
 
             # Try to get the object trait:
             if trait is None:
